@@ -1,6 +1,7 @@
 """Execute `run` cases against the implementation (script generated on the fly from
 the pending services), and judge them against the Coq model."""
 import os
+import zlib
 import random
 import re
 import shutil
@@ -16,6 +17,11 @@ import coqeval
 def scratch_dir():
     d = tempfile.mkdtemp(prefix="pfdl_verif_")
     return d
+
+
+def gen_run_final():
+    import gen_run
+    return gen_run.FINAL_VALUATION
 
 
 def drive(case, rng, profile, test_ids=True, mutate=False, max_calls=80, script=None,
@@ -54,8 +60,33 @@ def drive(case, rng, profile, test_ids=True, mutate=False, max_calls=80, script=
                 pending.remove(e[5])
                 done.append(e[5])
 
+    # a bystander: in a quarter of the cases (decided by the program text, so that a case
+    # replays) a second scheduler for another order is created right after this one and driven
+    # in between this order's API calls.  Orders are independent (C18), so this must not be
+    # visible in this order's trace; state shared between Scheduler objects would be.
+    bystander = None
+    if zlib.crc32(text.encode()) % 4 == 2:
+        try:
+            import kind_config
+            bystander = impl_run.ImplRun(render(kind_config.OTHER_PROGRAM), [gen_run_final()], [], test_ids=test_ids)
+        except Exception:  # noqa: BLE001
+            bystander = None
+    out["bystander"] = bystander is not None
+
+    def drive_bystander():
+        if bystander is None or not bystander.valid:
+            return
+        try:
+            if not bystander.ncalls:
+                bystander.call(("start",))
+            elif bystander.pending:
+                bystander.call(("finish", bystander.pending[0]))
+        except Exception:  # noqa: BLE001
+            pass          # the bystander's own behaviour is judged by the C18 check
+
     def do(op):
         out["script"].append(op)
+        drive_bystander()
         try:
             rec = run.call(op)
         except RecursionError:
